@@ -450,6 +450,14 @@ class Engine:
             for r in self.getattr(base, e.attr, s1, sink):
                 yield r
 
+    def _log_protected_read(self, st, attr):
+        """contract option protected_fields=[names]: reads of these attributes by the code under proof (not by spec clauses) are put into
+        the write log as pseudo entries (-2, '<read:name>'), next to the lock events (-1, ...), so that a contract can state that the
+        lock-protected state is only ACCESSED while the lock is held (C19; spec form reads_outside_lock)"""
+        pf = self.options.get('protected_fields')
+        if pf and attr in pf and not (st.frames and st.frame.spec_mode):
+            st.writes.append((-2, '<read:%s>' % attr))
+
     def getattr(self, base, attr, st, sink):
         """yields (st, value)"""
         if isinstance(base, Ref):
@@ -461,6 +469,7 @@ class Engine:
                             yield r
                     return
                 if attr in h.fields:
+                    self._log_protected_read(st, attr)
                     yield st, h.fields[attr]
                     return
                 if h.cls is not None:
@@ -489,6 +498,7 @@ class Engine:
                         v = self.class_attr(c, attr, node)
                         if isinstance(v, StateGlobal):        # a class-level OBJECT (registry override): lives in each state's heap
                             v = v.get(self, st)
+                        self._log_protected_read(st, attr)
                         yield st, v
                         return
                     ga = h.cls.find_method('__getattr__')
